@@ -319,18 +319,23 @@ Definition dist_ok (m : vec FloatF) : bool :=
           fclose s 1 || forallb (fun p => PrimFloat.eqb (snd p) 0) m
    end).
 
-(* C10_query: every Query answer equals what the model's cache (fed with the OBSERVED maps)
-   holds: the last published score / 0.9 for a fresh anchor / 0 for unknown ids *)
-Fixpoint obs_cache_ok (c : vec FloatF) (pre : list N) (ops : list (op FloatF)) (obs : list (out FloatF)) : bool :=
+(* C10_query on the implementation's own outputs: every Query answer equals the score of the last
+   OBSERVED map that contained the id (the property: "returns the last computed score"), 0.9 for
+   an anchor no computation has scored yet, 0 for unknown or removed ids.  [pub] = ids whose
+   published score comes from a computation.  add_pre_trusted(i) for such an id is expected to keep
+   the computed score -- the code overwrites it with 0.9: known finding c10-addpre-overwrite
+   (Props/C10.v: C10_query_refuted); those cases fail this predicate and are tagged by the harness. *)
+Fixpoint obs_cache_ok (c : vec FloatF) (pub : list N) (ops : list (op FloatF)) (obs : list (out FloatF)) : bool :=
   match ops, obs with
   | o :: ops', r :: obs' =>
       match o, r with
-      | Compute _, OMap m => dist_ok m && obs_cache_ok (publish c m) pre ops' obs'
+      | Compute _, OMap m => dist_ok m && obs_cache_ok (publish c m) (map fst m ++ pub) ops' obs'
       | Query i, OVal x =>
-          PrimFloat.eqb x (match aget c i with Some y => y | None => 0%float end) && obs_cache_ok c pre ops' obs'
-      | AddPre i, _ => obs_cache_ok (aset c i (@of_Q FloatF TRUST_ANCHOR_INITIAL_ADD)) pre ops' obs'
-      | RemoveNode i, _ => obs_cache_ok (adel c i) pre ops' obs'
-      | _, _ => obs_cache_ok c pre ops' obs'
+          PrimFloat.eqb x (match aget c i with Some y => y | None => 0%float end) && obs_cache_ok c pub ops' obs'
+      | AddPre i, _ =>
+          obs_cache_ok (if memN i pub then c else aset c i (@of_Q FloatF TRUST_ANCHOR_INITIAL_ADD)) pub ops' obs'
+      | RemoveNode i, _ => obs_cache_ok (adel c i) (filter (fun j => negb (j =? i)) pub) ops' obs'
+      | _, _ => obs_cache_ok c pub ops' obs'
       end
   | [], [] => true
   | _, _ => false
@@ -338,7 +343,7 @@ Fixpoint obs_cache_ok (c : vec FloatF) (pre : list N) (ops : list (op FloatF)) (
 
 Definition prop_case (c : tcase) : bool :=
   let '(tbl, pre, ops, obs) := c in
-  obs_cache_ok (map (fun i => (i, @of_Q FloatF TRUST_ANCHOR_INITIAL)) (dedupN pre)) pre ops obs.
+  obs_cache_ok (map (fun i => (i, @of_Q FloatF TRUST_ANCHOR_INITIAL)) (dedupN pre)) [] ops obs.
 
 (* ---- C11 cases: a graph-building history WITHOUT computes, then one compute; [Sy] is the set of
    identities nobody outside vouches for.  The premises of the C11 theorems are decided here, on
